@@ -169,7 +169,7 @@ class Check:
                 self.problems.append("%s: solver unknown on %s" % (h["Name"], u))
             if expect_covers:
                 cov = h.get("Covers") or {}
-                if not cov:
+                if not cov and not (h.get("Violations") or []):
                     self.problems.append("%s: vacuous (no cover point witnessed)" % h["Name"])
         if max_models > 0 or any(h.get("Violations") for h in rep["Harnesses"]):
             self._native(rep["Harnesses"], ctx, max_models)
